@@ -38,6 +38,8 @@ deriving DecidableEq, Repr, Inhabited
 def tooManyTimelines : String := "too many timelines!"
 def badMagic : String := "failed to find magic"
 def timelineAfterNull : String := "unexpected timeline offset"
+def tooManySubs : String := "too many subs!"
+def emptyTimelineTable : String := "timeline table has no entries"
 
 /-- `max_timelines()`; `cap - 1` on a `usize` -/
 def TlKind.maxTimelines : TlKind → Outcome (Option Nat)
@@ -63,7 +65,15 @@ def resize0 (n : Nat) (l : List Nat) : List Nat := l.take n ++ List.replicate (n
 
 def eclMagicBytes (fmt : EclFmt) : Bytes := match fmt.magic with | some m => u32 m | none => []
 
-/-- the two count words; `len() as u16` keeps the low 16 bits -/
+/-- `u16::try_from(len)` of the two counts (repaired by d14e963: they used to be `len() as u16`): the
+sub count always, the timeline count only in the games that store it -/
+def eclCountsCheck (kind : TlKind) (e : EclFile) : Outcome Unit :=
+  if e.subs.length > 65535 then .err tooManySubs else
+  match kind with
+  | .eosd _ => .ok ()
+  | _ => if e.timelines.length > 65535 then .err tooManyTimelines else .ok ()
+
+/-- the two count words (both fit: `eclCountsCheck`) -/
 def eclCounts (kind : TlKind) (e : EclFile) : Bytes :=
   match kind with
   | .eosd _ => u16 e.subs.length ++ u16 0
@@ -92,13 +102,17 @@ def eclAssemble (fmt : EclFmt) (e : EclFile) (subBytes : Bytes) (subOffs : List 
   eclMagicBytes fmt ++ eclCounts fmt.kind e
     ++ u32s (eclTlTable fmt e tlOffs (eclBase fmt e + subBytes.length + tlBytes.length)) ++ u32s subOffs ++ subBytes ++ tlBytes
 
-/-- `write_olde_ecl`.  `len() as u16` and `offset as u32` keep the low bits. -/
+/-- `write_olde_ecl`.  `offset as u32` keeps the low bits. -/
 def writeEcl (fmt : EclFmt) (e : EclFile) : Outcome Bytes :=
   match fmt.kind.maxTimelines with
   | .err c => .err c
   | .panic p => .panic p
   | .ok maxTl =>
   if eclTooMany maxTl e then .err tooManyTimelines else
+  match eclCountsCheck fmt.kind e with
+  | .err c => .err c
+  | .panic p => .panic p
+  | .ok _ =>
   match writeScriptList fmt.ecl (eclBase fmt e) e.subs with
   | .err c => .err c
   | .panic p => .panic p
@@ -138,11 +152,12 @@ def eclTlArrayLen (kind : TlKind) (high : Nat) : Nat :=
   | .pcb cap => cap
   | .eosd cap => cap
 
-/-- number of timelines given the number of leading nonzero offsets; `num_timelines -= 1` on a
-`usize` where the last used entry is the end of the file -/
+/-- number of timelines given the number of leading nonzero offsets; where the last used entry is
+the end of the file: `num_timelines.checked_sub(1)` (repaired by 8c247ce: it used to be
+`num_timelines -= 1`, a panic on an array that starts with a zero offset) -/
 def eclNumTimelines (kind : TlKind) (numNonzero : Nat) : Outcome Nat :=
   match kind with
-  | .pcb _ => if numNonzero = 0 then .panic "src/formats/ecl/ecl_06.rs: attempt to subtract with overflow" else .ok (numNonzero - 1)
+  | .pcb _ => if numNonzero = 0 then .err emptyTimelineTable else .ok (numNonzero - 1)
   | _ => .ok numNonzero
 
 /-- `read_olde_ecl` -/
